@@ -88,6 +88,10 @@ def slug(text: str) -> str:
 
 
 def load_known():
+    if os.environ.get("VERIF_IGNORE_KNOWN"):
+        # developer switch: report listed findings as violations (used to
+        # regenerate the replay files kept under /verif/known_replays)
+        return {"known": [], "fixed": []}
     if not os.path.exists(KNOWN_FINDINGS):
         return {"known": [], "fixed": []}
     with open(KNOWN_FINDINGS) as f:
